@@ -11,12 +11,13 @@ The dense reference semantics (`den`, `dims`) below is written from the document
 (slice index fastest, then time, then vector) and is independent of the Coq model: the property
 oracles compare every lookup of a real result with it.
 
-Regions of the OPEN known findings N1..N4 (known-findings.txt) are kept out of the random streams and are
-covered by corpus cases instead (corpus/C03, corpus/C04):
-  * trailing-singleton shapes (X,Y,Z,1) / (X,Y,Z,T,1)                          (N1, N2, N4)
-  * merges along time/vector of inputs without a slice dimension              (N3)
-`finding_sig_subset` / `finding_sig_merge` give the exact signatures of those regions."""
-import os, sys, copy, itertools
+The random streams DO enter the regions of the open findings N1..N4 (trailing-singleton shapes, merges along
+time / vector without a slice dimension); `finding_sig_subset` / `finding_sig_merge` re-derive the exact MECHANISM
+of each finding from the case and the observation (exception class + the missing dictionary of a KeyError; never
+message text), so those failures stay KNOWN while any other defect in the same region gets another signature.
+Oracles are written from the property texts against GENERATOR truth (never against the result's own header) and
+collect all clause messages, preferring one that is not a known finding."""
+import os, sys, re, copy, itertools
 from fractions import Fraction
 
 from vlib.coqlit import cnat, cz, cbool, clist, copt, cpair, cstr, cq, cjv
@@ -90,7 +91,69 @@ def keys_of(*Es):
 
 
 def slice_normal(E):
+    """ROW [slice dim, :3] of the affine: what the code calls the slice normal (open finding N13: not the direction)."""
     return None if E['sdim'] is None else [Fraction(x) for x in E['aff'][E['sdim']][:3]]
+
+
+def slice_direction(E):
+    """COLUMN [:3, slice dim] of the affine: the direction in which the slice axis runs (the spec)."""
+    return None if E['sdim'] is None else [Fraction(E['aff'][r][E['sdim']]) for r in range(3)]
+
+
+def keep_slices(T, E, how='dir'):
+    """Is the per-slice metadata of input E usable in a result with header T (dicts with 'aff', 'sdim')?
+    how='dir': slice DIRECTIONS agree (spec); how='row': the code's row test."""
+    f = slice_direction if how == 'dir' else slice_normal
+    a, b = f(T), f(E)
+    return a is not None and b is not None and allclose(a, b)
+
+
+N13_TAG = '[row-vs-column]'
+N13_SIG = 'lookup/slice-direction-row-vs-column'
+
+
+def n13_tagged(msg):
+    return bool(msg) and N13_TAG in msg
+
+
+def layout_problems(E, what='result'):
+    """Format rules the lookups rest on, checked here and NOT taken from check_valid: every key once, under a class the
+    shape admits, with exactly the number of values of that class."""
+    out, seen, d = [], set(), dims(E)
+    for k, c, vs in E['entries']:
+        if k in seen:
+            out.append('%s: key %r stored twice' % (what, k))
+        seen.add(k)
+        if not class_ok(E['shape'], c):
+            out.append('%s: key %r under %s, which shape %r does not admit' % (what, k, c, E['shape']))
+        elif PYCLS[c][1] == 'slices' and E['sdim'] is None:
+            out.append('%s: key %r per slice without a slice dimension' % (what, k))
+        elif len(vs) != mult(d, c):
+            out.append('%s: key %r has %d values under %s, expected %d' % (what, k, len(vs), c, mult(d, c)))
+    return out
+
+
+def known_signatures(pid):
+    """Signatures of the `open:` lines of known-findings.txt for property pid."""
+    path = os.path.join(os.path.dirname(os.path.dirname(os.path.abspath(__file__))), 'known-findings.txt')
+    out = set()
+    try:
+        for line in open(path):
+            m = re.match(r'open:\s+property=(\S+)\s+sig=(\S+)', line.strip())
+            if m and m.group(1) == pid:
+                out.add(m.group(2))
+    except OSError:
+        pass
+    return out
+
+
+def prefer_unknown(msgs, sigfun, known):
+    """One message out of many: the first whose signature is not a known finding, else the first."""
+    msgs = [m for m in msgs if m]
+    for m in msgs:
+        if sigfun(m) not in known:
+            return m
+    return msgs[0] if msgs else None
 
 
 def allclose(a, b, rtol=Fraction(1, 100000), atol=Fraction(1, 100000000)):
@@ -155,7 +218,7 @@ def _plain(o):
 
 
 def ext_to_json(ext):
-    """Real extension -> canonical JSON form (entries sorted by key).  Raises ValueError('abs: ...') when the
+    """Real extension -> canonical JSON form (entries sorted by key).  Raises AbstractionError when the
     content cannot be abstracted (a key in two class dicts, a non-list under a varying class, entries under a
     class that is not valid for the shape)."""
     c = ext._content
@@ -170,29 +233,48 @@ def ext_to_json(ext):
             continue
         for k, v in c[base][sub].items():
             if k in seen:
-                raise ValueError('abs: key %r is in two classifications' % k)
+                raise AbstractionError('key %r is in two classifications' % k)
             seen.add(k)
             if not class_ok(shape, name):
-                raise ValueError('abs: key %r sits in %s which is not valid for shape %r' % (k, name, shape))
+                raise AbstractionError('key %r sits in %s which is not valid for shape %r' % (k, name, shape))
             if name == 'GConst':
                 vs = [_plain(v)]
             else:
                 if not isinstance(v, list):
-                    raise ValueError('abs: key %r in %s holds a bare value' % (k, name))
+                    raise AbstractionError('key %r in %s holds a bare value' % (k, name))
                 vs = _plain(v)
             E['entries'].append([k, name, vs])
     E['entries'].sort(key=lambda e: e[0])
     return E
 
 
+class AbstractionError(ValueError):
+    """The content of a real extension cannot be abstracted (key in two classes, bare value under a varying class ...).
+    (A ValueError whose text starts with 'abs:' for the sake of older callers; classify with isinstance.)"""
+    def __init__(self, msg):
+        ValueError.__init__(self, 'abs: ' + msg)
+
+
+def exc_obs(e):
+    """Observation of an exception: enum for the Coq side, class name (by isinstance for the built-in classes), and for
+    a KeyError the missing key (e.args[0]).  `msg` is informational only -- nothing may classify by it."""
+    if isinstance(e, AbstractionError):
+        name = 'Abstraction'
+    else:
+        name = type(e).__name__
+        for cls in (KeyError, IndexError, ValueError, TypeError, AttributeError):
+            if isinstance(e, cls):
+                name = cls.__name__
+                break
+    key = e.args[0] if isinstance(e, KeyError) and e.args and isinstance(e.args[0], str) else None
+    return {'err': ERRMAP.get(name, 'ECrash'), 'exc': name, 'exc_key': key, 'msg': str(e)[:200]}
+
+
 def _guard(f):
     try:
         return f()
-    except Exception as e:          # noqa: BLE001  (every exception class is an observation here)
-        name = type(e).__name__
-        if name == 'ValueError' and str(e).startswith('abs:'):
-            return {'err': 'ECrash', 'exc': 'Abstraction', 'msg': str(e)}
-        return {'err': ERRMAP.get(name, 'ECrash'), 'exc': name, 'msg': str(e)[:200]}
+    except Exception as e:          # noqa: BLE001  (every Exception is an observation; CaseTimeout is a BaseException)
+        return exc_obs(e)
 
 
 def run_subset(case):
@@ -339,17 +421,24 @@ def gen_affine(rng, kind='any'):
 
 
 def other_normal_affine(rng, aff, sdim):
-    """An affine whose slice normal (row sdim, first three entries) is clearly different from aff's."""
+    """An affine whose slice ROW and slice COLUMN both differ clearly from aff's (entry [sdim][sdim] lies on both), so
+    that the code's row test and the direction test decide alike (row-vs-column disagreements are open finding N13)."""
     a = copy.deepcopy(aff)
-    row = a[sdim]
-    j = rng.randrange(3)
-    row[j] = row[j] + rng.choice([1.0, -1.0, 0.5, 2.0])
+    a[sdim][sdim] = a[sdim][sdim] + rng.choice([1.0, -1.0, 0.5, 2.0])
     return a
 
 
-def gen_shape(rng, tier, ndim=None, sdim='any', force=None):
-    """-> (shape, sdim).  S,T,V in 1..hi (hi = 3 quick / 4 thorough); never a trailing singleton dim (finding region);
-    force = dict axis -> extent overrides that."""
+def translated_affine(rng, aff):
+    a = copy.deepcopy(aff)
+    for r in range(3):
+        a[r][3] = a[r][3] + rng.choice([0.0, 4.0, -2.5, 16.0])
+    return a
+
+
+def gen_shape(rng, tier, ndim=None, sdim='any', force=None, trailing1=0.0):
+    """-> (shape, sdim).  S,T,V in 1..hi (hi = 3 quick / 4 thorough).  A 4-D / 5-D shape ends in a singleton dim only
+    with probability `trailing1` (default 0: region of the open findings N1/N2/N4) or when `force` (dict axis -> extent)
+    says so."""
     hi = 3 if tier == 'quick' else 4
     ndim = ndim or rng.choice([3, 4, 4, 5, 5, 5])
     if sdim == 'any':
@@ -363,8 +452,11 @@ def gen_shape(rng, tier, ndim=None, sdim='any', force=None):
         sh.append(rng.randint(1, hi))
     for ax, n in (force or {}).items():
         sh[ax] = n
-    if ndim > 3 and sh[-1] == 1 and not (force and (ndim - 1) in force):
-        sh[-1] = rng.randint(2, hi)
+    if ndim > 3 and not (force and (ndim - 1) in force):
+        if rng.random() < trailing1:
+            sh[-1] = 1
+        elif sh[-1] == 1:
+            sh[-1] = rng.randint(2, hi)
     return sh, sdim
 
 
@@ -480,10 +572,11 @@ def mk_E(shape, sdim, aff, entries):
 KEYNAMES = ['EchoTime', 'SliceLocation', 'k', 'AcquisitionTime', 'CsaImage.B_value', 'ImageType', 'a b', 'Zü', 'x0', 'x1']
 
 
-def gen_ext(rng, tier='quick', shape=None, sdim='any', ndim=None, nkeys=None, widen=0.3, aff=None, patterns=None):
+def gen_ext(rng, tier='quick', shape=None, sdim='any', ndim=None, nkeys=None, widen=0.3, aff=None, patterns=None,
+            trailing1=0.0):
     """A valid, nondegenerate extension in JSON form with random keys / patterns / classes."""
     if shape is None:
-        shape, sdim = gen_shape(rng, tier, ndim, sdim)
+        shape, sdim = gen_shape(rng, tier, ndim, sdim, trailing1=trailing1)
     aff = aff or gen_affine(rng)
     d = dims({'shape': shape, 'sdim': sdim})
     nkeys = nkeys if nkeys is not None else rng.randint(1, 5)
@@ -515,23 +608,37 @@ def merge_axis_kind(dim, sdim):
     return dim - 2
 
 
+TRAILING1_PROB = 0.1        # share of generated input shapes that end in a singleton dim (regions of N1 / N2 / N4)
+
+
 def gen_merge_case(rng, tier='quick', dim=None, ndim_in=None):
-    """Inputs are the restrictions of random total functions on the OUTPUT grid (dense reference semantics)."""
+    """Inputs are the restrictions of random total functions on the OUTPUT grid (dense reference semantics).
+    Covers: all five merge dims; 3-5 D inputs incl. (X,Y,Z,1,V) and (some) trailing-singleton shapes, 4-D T=1 inputs merged
+    along time; slice axis 0/1/2/None (None also along time / vector); 2..7 inputs; keys missing from some inputs; inputs
+    with another slice direction; explicit slice_dim argument; explicit affine argument equal to / translated from / with
+    another slice direction than the inputs' affines."""
     hi = 3 if tier == 'quick' else 4
     dim = rng.randrange(5) if dim is None else dim
+    t1 = rng.random() < TRAILING1_PROB
     if dim < 3:
         nd = ndim_in or rng.choice([3, 4, 5])
         force = {dim: 1}
+        if t1 and nd > 3:
+            force[nd - 1] = 1
     elif dim == 3:
-        nd = ndim_in or rng.choice([3, 3, 5])
-        force = {} if nd == 3 else {3: 1}
+        nd = ndim_in or rng.choice([3, 3, 5, 5, 4])
+        force = {} if nd == 3 else {3: 1}                     # nd == 4: (X,Y,Z,1) merged along time
+        if t1 and nd == 5:
+            force[4] = 1
     else:
-        nd = ndim_in or rng.choice([3, 4, 4])
-        force = {} if nd < 5 else {4: 1}
+        nd = ndim_in or rng.choice([3, 4, 4, 4, 5])
+        force = {} if nd < 5 else {4: 1}                      # nd == 5: (X,Y,Z,T,1)
+        if t1 and nd == 4:
+            force[3] = 1                                      # region of N1
     sh, sdim = gen_shape(rng, tier, nd, force=force)
-    if sdim is None and dim >= 3:          # region of N3
-        sdim = rng.choice([0, 1, 2])
     n = rng.randint(2, 5 if tier != 'quick' else 4)
+    if rng.random() < 0.04:
+        n = rng.randint(6, 7)
     aff = gen_affine(rng)
     out_shape = list(sh)
     while len(out_shape) <= dim:
@@ -564,27 +671,37 @@ def gen_merge_case(rng, tier='quick', dim=None, ndim_in=None):
                 per_input[i][k] = e
     affs = [aff] * n
     kind = 'merge/dim%d/%dD' % (dim, len(sh))
+    if trailing1(sh):
+        kind += '-trailing1'
+    if sdim is None and dim >= 3:
+        kind += '/nosdim'
     if sdim is not None and rng.random() < 0.2:
-        # some inputs (possibly the first) get a different slice normal: their per-slice meta must be ignored
+        # some inputs (possibly the first) get another slice direction: their per-slice meta must be ignored
         js = rng.sample(range(n), rng.randint(1, n - 1))
         affs = [other_normal_affine(rng, aff, sdim) if i in js else aff for i in range(n)]
         kind += '/normals'
     exts = [mk_E(sh, sdim, affs[i], per_input[i]) for i in range(n)]
     case = {'kind': kind, 'exts': exts, 'dim': dim, 'aff': None, 'sdim_arg': None}
     r = rng.random()
-    if r < 0.15:
-        case['aff'] = aff
-    if r < 0.1 and sdim is not None:
+    if r < 0.12:
+        case['aff'] = copy.deepcopy(aff)
+    elif r < 0.22:
+        case['aff'] = translated_affine(rng, aff)
+        case['kind'] += '/affarg-moved'
+    elif r < 0.28 and sdim is not None:
+        case['aff'] = other_normal_affine(rng, aff, sdim)     # every input with aff's direction loses its per-slice meta
+        case['kind'] += '/affarg-turned'
+    if rng.random() < 0.1 and sdim is not None:
         case['sdim_arg'] = sdim
     return case
 
 
 def gen_subset_case(rng, tier='quick'):
-    sh, sdim = gen_shape(rng, tier)
+    sh, sdim = gen_shape(rng, tier, trailing1=TRAILING1_PROB)
     E = gen_ext(rng, tier, shape=sh, sdim=sdim, widen=rng.choice([0.0, 0.3, 0.7]))
     dim = rng.randrange(len(sh))
     idx = rng.randrange(sh[dim])
-    return {'kind': 'subset/dim%d/%dD%s' % (dim, len(sh), '/slice' if dim == sdim else ''), 'ext': E, 'dim': dim, 'idx': idx}
+    return {'kind': 'subset/dim%d/%s%s' % (dim, shape_family(sh), '/slice' if dim == sdim else ''), 'ext': E, 'dim': dim, 'idx': idx}
 
 
 def gen_subset_all(E):
@@ -603,80 +720,137 @@ def subset_shape(shape, dim):
     return sh
 
 
-def oracle_subset(case, obs):
-    """C04 on the implementation alone: result shape, and every lookup of the piece equals the parent's
-    lookup with the split axis fixed to idx."""
+def oracle_subset_all(case, obs):
+    """C04 (extension level) on the implementation alone, all clause messages: result shape / slice dim / affine from the
+    CASE, the format rules the lookups rest on, and every lookup of the piece = the parent's lookup with the split axis
+    fixed to idx."""
     E, dim, idx = case['ext'], case['dim'], case['idx']
-    if dim >= len(E['shape']) or idx >= E['shape'][dim]:
-        return None if 'err' in obs else 'out-of-range subset accepted'
+    if dim >= len(E['shape']):
+        return [] if 'err' in obs else ['subset along a dimension the extension does not have was accepted']
+    if idx >= E['shape'][dim]:
+        return []                                   # the property does not speak about indices beyond the axis
     if 'err' in obs:
-        return 'get_subset(%d,%d) raised %s: %s' % (dim, idx, obs.get('exc'), obs.get('msg'))
+        return ['get_subset(%d,%d) raised %s: %s' % (dim, idx, obs.get('exc'), obs.get('msg'))]
     R = obs['ext']
+    out = []
     if R['shape'] != subset_shape(E['shape'], dim):
-        return 'result shape %r, expected %r' % (R['shape'], subset_shape(E['shape'], dim))
+        return ['result shape %r, expected %r' % (R['shape'], subset_shape(E['shape'], dim))]
     if R['sdim'] != E['sdim']:
-        return 'result slice dim %r, expected %r' % (R['sdim'], E['sdim'])
+        return ['result slice dim %r, expected %r' % (R['sdim'], E['sdim'])]
+    if R['aff'] != E['aff']:
+        out.append('result affine differs from the parent\'s')
+    out += layout_problems(R)
     ax = merge_axis_kind(dim, E['sdim'])
     dR = dims(R)
     for k in keys_of(E, R):
+        bad = None
         for p in grid(dR):
             q = list(p)
             if ax is not None:
                 q[ax] = idx
             a, b = den(R, k, p), den(E, k, tuple(q))
             if a != b:
-                return 'key %r: piece%r = %r but parent%r = %r' % (k, p, a, tuple(q), b)
-    if not obs.get('valid', True):
-        return 'result fails check_valid'
-    return None
+                bad = 'key %r: piece%r = %r but parent%r = %r' % (k, p, a, tuple(q), b)
+                break
+        if bad:
+            out.append(bad)
+    if obs.get('input_untouched') is False:
+        out.append('get_subset modified its input')
+    return out
 
 
-def oracle_merge(case, obs):
-    """C03 on the implementation alone (extension level)."""
+def oracle_subset(case, obs):
+    msgs = oracle_subset_all(case, obs)
+    return msgs[0] if msgs else None
+
+
+def merge_truth(case):
+    """Header the result must have, from the case alone: (shape, slice dim, affine); None when the merge must be refused."""
     exts, dim = case['exts'], case['dim']
-    E0 = exts[0]
-    sh = E0['shape']
-    singular = dim < 5 and (dim >= len(sh) or sh[dim] == 1)
-    if not singular:
-        return None if obs.get('err') == 'EValue' else 'non-singular merge axis: expected ValueError, got %r' % (obs.get('exc') or 'a result')
-    if 'err' in obs:
-        return 'from_sequence(dim=%d) raised %s: %s' % (dim, obs.get('exc'), obs.get('msg'))
-    R = obs['ext']
+    sh = exts[0]['shape']
+    if not (dim < 5 and (dim >= len(sh) or sh[dim] == 1)):
+        return None
     out_shape = list(sh)
     while len(out_shape) <= dim:
         out_shape.append(1)
     out_shape[dim] = len(exts)
-    if R['shape'] != out_shape:
-        return 'result shape %r, expected %r' % (R['shape'], out_shape)
-    rn = slice_normal(R)
-    drops = []
-    for E in exts:
-        en = slice_normal(E)
-        drops.append(not (rn is not None and en is not None and allclose(rn, en)))
-    ax = merge_axis_kind(dim, R['sdim'])
-    dR = dims(R)
-    allkeys = keys_of(R, *exts)
-    if ax is None:
-        for k in allkeys:
-            tabs = [[den(E, k, p, dr) for p in grid(dims(E))] for E, dr in zip(exts, drops)]
+    sd = case.get('sdim_arg') if case.get('sdim_arg') is not None else exts[0]['sdim']
+    aff = case.get('aff') if case.get('aff') is not None else exts[0]['aff']
+    return {'shape': out_shape, 'sdim': sd, 'aff': aff}
+
+
+def merged_den(case, T, how='dir'):
+    """Expected denotation of the merge, from the inputs alone: {key: {pos: value}} over the grid of the truth header T;
+    for a non-slice spatial merge a key on which the inputs disagree denotes None everywhere."""
+    exts, dim = case['exts'], case['dim']
+    drops = [not keep_slices(T, E, how) for E in exts]
+    ax = merge_axis_kind(dim, T['sdim'])
+    dT = dims(T)
+    out = {}
+    for k in keys_of(*exts):
+        if ax is None:
+            tabs = [{p: den(E, k, p, dr) for p in grid(dims(E))} for E, dr in zip(exts, drops)]
             agree = all(t == tabs[0] for t in tabs)
-            got = [den(R, k, p) for p in grid(dR)]
-            if agree and got != tabs[0]:
-                return 'key %r: all inputs agree but the result differs' % k
-            if not agree and any(x is not None for x in got):
-                return 'key %r: inputs disagree but the key was kept' % k
-    else:
-        for k in allkeys:
-            for p in grid(dR):
+            out[k] = {p: (tabs[0].get(p) if agree else None) for p in grid(dT)}
+        else:
+            f = {}
+            for p in grid(dT):
                 q = list(p)
                 i = q[ax]
                 q[ax] = 0
-                a, b = den(R, k, p), den(exts[i], k, tuple(q), drops[i])
-                if a != b:
-                    return 'key %r: result%r = %r but input %d at %r = %r' % (k, p, a, i, tuple(q), b)
-    if not obs.get('valid', True):
-        return 'result fails check_valid'
-    return None
+                f[p] = den(exts[i], k, tuple(q), drops[i])
+            out[k] = f
+    return out
+
+
+def _den_mismatches(R, exp):
+    out = []
+    dR = dims(R)
+    for k in sorted(set(list(exp) + [e[0] for e in R['entries']])):
+        f = exp.get(k, {})
+        for p in grid(dR):
+            a, b = den(R, k, p), f.get(p)
+            if a != b:
+                out.append('key %r: result%r = %r but the inputs give %r' % (k, p, a, b))
+                break
+    return out
+
+
+def oracle_merge_all(case, obs):
+    """C03 (extension level) on the implementation alone, all clause messages.  Judged against generator truth: the
+    result header (shape, slice dim, affine) expected from the CASE, per-slice metadata of an input kept iff its slice
+    DIRECTION agrees with the expected header's (where the code's row test decides differently and the result is what the
+    row test gives, the message carries N13_TAG)."""
+    T = merge_truth(case)
+    if T is None:
+        return [] if 'err' in obs else ['non-singular / impossible merge axis accepted']
+    if 'err' in obs:
+        return ['from_sequence(dim=%d) raised %s: %s' % (case['dim'], obs.get('exc'), obs.get('msg'))]
+    R = obs['ext']
+    if R['shape'] != T['shape']:
+        return ['result shape %r, expected %r' % (R['shape'], T['shape'])]
+    out = []
+    if R['sdim'] != T['sdim']:
+        return ['result slice dim %r, expected %r' % (R['sdim'], T['sdim'])]
+    if R['aff'] != T['aff']:
+        out.append('result affine is not the affine argument / the first input\'s affine')
+    out += layout_problems(R)
+    Rt = dict(R, sdim=T['sdim'])
+    bad = _den_mismatches(Rt, merged_den(case, T, 'dir'))
+    if bad and [keep_slices(T, E, 'dir') for E in case['exts']] != [keep_slices(T, E, 'row') for E in case['exts']] \
+            and not _den_mismatches(Rt, merged_den(case, T, 'row')):
+        bad = [N13_TAG + ' per-slice metadata kept / dropped by the affine ROW, not by the slice direction: ' + bad[0]]
+    out += bad
+    if obs.get('input_untouched') is False:
+        out.append('from_sequence modified an input')
+    return out
+
+
+def oracle_merge(case, obs):
+    msgs = oracle_merge_all(case, obs)
+    known = {'merge/4d-t1-along-vector/KeyError', 'merge/no-slice-dim/TypeError', 'merge/trailing-singleton-simplify/ValueError',
+             N13_SIG}
+    return prefer_unknown(msgs, lambda m: N13_SIG if n13_tagged(m) else (finding_sig_merge(case, obs) or 'other'), known)
 
 
 def sig_of_exc(obs):
@@ -687,27 +861,81 @@ def trailing1(shape):
     return len(shape) > 3 and shape[-1] == 1
 
 
-def finding_sig_subset(case, obs):
-    """Exact signature of the open finding N2 when the failure lies in its region, else None."""
-    E, dim = case['ext'], case['dim']
+# ---- mechanisms of the open findings N1..N4, re-derived from the case (pure functions; no message text)
+
+def n1_region(exts, dim):
+    """N1: every input 4-D with a singular time axis, merged along the vector axis (the (X,Y,Z,1,n) result has no 'time'
+    dictionaries but the first input's time classes are copied)."""
+    return dim == 4 and all(len(E['shape']) == 4 and E['shape'][3] == 1 for E in exts)
+
+
+def n2_vanishing_base(E, dim):
+    """N2: trailing-singleton shape, subset along a non-slice spatial dim (or dim 3 of a 5-D (..,T,1)): the result shape is
+    trimmed and loses the 'time' (4-D) / 'vector' (5-D) dictionaries, and the extension holds a key in a class of that
+    base.  -> 'time' | 'vector' | None."""
     sh = E['shape']
-    if obs.get('exc') == 'KeyError' and trailing1(sh) and dim < len(sh) and \
-            ((dim < 3 and dim != E['sdim']) or (dim == 3 and len(sh) == 5)):
+    if not (trailing1(sh) and dim < len(sh) and ((dim < 3 and dim != E['sdim']) or (dim == 3 and len(sh) == 5))):
+        return None
+    base = 'time' if len(sh) == 4 else 'vector'
+    if any(PYCLS[c][0] == base and class_ok(sh, c) for _, c, _ in E['entries']):
+        return base
+    return None
+
+
+def n3_mechanism(exts, dim, sdim_result):
+    """N3: result without slice dimension, merge along time / vector that is otherwise acceptable, and some key has to pass
+    through ('global','slices') (whose multiplicity is undefined without a slice dimension):
+      dim 4: a key held per time sample by some input;
+      dim 3 with 5-D inputs: a key held per vector sample somewhere, or a constant that differs / is missing between inputs."""
+    sh = exts[0]['shape']
+    if sdim_result is not None or dim not in (3, 4) or not (dim >= len(sh) or sh[dim] == 1):
+        return False
+    ents = [entry_map(E) for E in exts]
+    for k in keys_of(*exts):
+        cls = [m[k][0] if k in m else None for m in ents]
+        if dim == 4 and 'TSamples' in cls:
+            return True
+        if dim == 3 and len(sh) == 5:
+            if 'VSamples' in cls:
+                return True
+            vals = [m[k][1] if k in m else [None] for m in ents]
+            if any(v != vals[0] for v in vals):
+                return True
+    return False
+
+
+def n4_mechanism(case):
+    """N4: acceptable merge whose OUTPUT shape ends in a singleton dim, and some key's merged denotation is not constant
+    (so the final _simplify has to run its repeat tests with a period equal to the whole list)."""
+    T = merge_truth(case)
+    if T is None or not trailing1(T['shape']):
+        return False
+    for how in ('dir', 'row'):
+        for f in merged_den(case, T, how).values():
+            vals = list(f.values())
+            if any(v != vals[0] for v in vals):
+                return True
+    return False
+
+
+def finding_sig_subset(case, obs):
+    """Signature of the open finding N2 when case and observation show exactly its mechanism, else None."""
+    base = n2_vanishing_base(case['ext'], case['dim'])
+    if base is not None and obs.get('exc') == 'KeyError' and obs.get('exc_key') == base:
         return 'subset/trailing-singleton/KeyError'
     return None
 
 
 def finding_sig_merge(case, obs):
-    """Exact signature of the open findings N1 / N3 / N4 when the failure lies in their region, else None."""
+    """Signature of the open findings N1 / N3 / N4 when case and observation show exactly that mechanism, else None."""
     exts, dim = case['exts'], case['dim']
     exc = obs.get('exc')
     sd = case.get('sdim_arg') if case.get('sdim_arg') is not None else exts[0]['sdim']
-    if exc == 'KeyError' and dim == 4 and all(len(E['shape']) == 4 and E['shape'][3] == 1 for E in exts):
+    if exc == 'KeyError' and obs.get('exc_key') == 'time' and n1_region(exts, dim):
         return 'merge/4d-t1-along-vector/KeyError'
-    if exc == 'TypeError' and sd is None and dim in (3, 4):
+    if exc == 'TypeError' and n3_mechanism(exts, dim, sd):
         return 'merge/no-slice-dim/TypeError'
-    if exc == 'ValueError' and any(trailing1(E['shape']) for E in exts) and \
-            str(obs.get('msg', '')).startswith('The period must be greater than one and less than'):
+    if exc == 'ValueError' and n4_mechanism(case):
         return 'merge/trailing-singleton-simplify/ValueError'
     return None
 
@@ -736,24 +964,31 @@ class SubsetPart:
     SHARD = 100
     IMPL_TIMEOUT = 20
     RULE = ('random valid nondegenerate extensions (3-5 D, S,T,V in 1..3 quick / 1..4 thorough, slice axis 0/1/2/None, '
-            '(X,Y,Z,1,V) included, canonical and widened classes, 9 value patterns incl. list / nested / None-heavy values), '
-            'every (dim, idx) for a part of them and a random (dim, idx) for the rest, plus error cases (dim out of range); '
-            'non-trivial = some key in a varying class or an error')
+            '(X,Y,Z,1,V) and ~10% trailing-singleton shapes included, canonical and widened classes, value patterns incl. list / '
+            'nested / None-heavy values), every (dim, idx) for a part of them and a random (dim, idx) for the rest, plus dim out '
+            'of range (refusal, any exception class) and idx beyond the axis (correspondence only); non-trivial = some key in a '
+            'varying class')
 
     @staticmethod
     def gen_cases(rng, tier):
         n_rand, n_all = (500, 40) if tier == 'quick' else (4000, 400)
         cases = [gen_subset_case(rng, tier) for _ in range(n_rand)]
         for _ in range(n_all):
-            E = gen_ext(rng, tier, widen=rng.choice([0.0, 0.5]))
+            E = gen_ext(rng, tier, widen=rng.choice([0.0, 0.5]), trailing1=TRAILING1_PROB)
             for c in gen_subset_all(E):
                 cases.append(c)
         for _ in range(30 if tier == 'quick' else 200):
-            E = gen_ext(rng, tier)
+            E = gen_ext(rng, tier, trailing1=TRAILING1_PROB)
             cases.append({'kind': 'subset/err-dim', 'ext': E, 'dim': rng.choice([len(E['shape']), 5, 6, 4]), 'idx': 0})
         for c in cases:
             if c['kind'] == 'subset/err-dim' and c['dim'] < len(c['ext']['shape']):
-                c['kind'] = 'subset/dim%d/%dD' % (c['dim'], len(c['ext']['shape']))
+                c['kind'] = 'subset/dim%d/%s' % (c['dim'], shape_family(c['ext']['shape']))
+        for _ in range(25 if tier == 'quick' else 150):
+            # an index beyond the axis: the property is silent, only the correspondence (model == code) is checked
+            c = gen_subset_case(rng, tier)
+            c['idx'] = c['ext']['shape'][c['dim']] + rng.choice([0, 0, 1, 3])
+            c['kind'] = 'subset/idx-beyond'
+            cases.append(c)
         return cases
 
     run_impl = staticmethod(run_subset)
@@ -762,20 +997,18 @@ class SubsetPart:
     @staticmethod
     def oracle(case, obs):
         if 'crash' in obs:
-            return 'harness: %s' % obs.get('msg')
-        m = oracle_subset(case, obs)
-        if m is None and obs.get('input_untouched') is False:
-            return 'get_subset modified its input'
-        return m
+            return 'harness: %s: %s' % (obs.get('crash'), obs.get('msg'))
+        msgs = oracle_subset_all(case, obs)
+        return prefer_unknown(msgs, lambda m: SubsetPart.signature(case, obs, m), {'subset/trailing-singleton/KeyError'})
 
     @staticmethod
     def signature(case, obs, msg):
-        return finding_sig_subset(case, obs) or \
-            'subset/%s/dim%d/%s' % (shape_family(case['ext']['shape']), case['dim'], sig_of_exc(obs))
+        s = finding_sig_subset(case, obs) if 'raised' in (msg or '')[:40] or 'err' in obs else None
+        return s or 'subset/%s/dim%d/%s' % (shape_family(case['ext']['shape']), case['dim'], sig_of_exc(obs))
 
     @staticmethod
     def nontrivial(case, obs):
-        return 'err' in obs or any(c != 'GConst' for _, c, _ in case['ext']['entries'])
+        return any(c != 'GConst' for _, c, _ in case['ext']['entries'])
 
     @staticmethod
     def shrink(case):
@@ -794,10 +1027,13 @@ class MergePart:
     CORR_SHOW = 'run_merge'
     SHARD = 60
     IMPL_TIMEOUT = 20
-    RULE = ('2..5 inputs that are the restrictions of random total functions on the OUTPUT grid (dense reference), all five '
-            'merge dims, 3-5 D inputs incl. (X,Y,Z,1,V), any slice axis, canonical and widened classes per input, keys '
-            'missing from some inputs, differing slice normals, explicit affine / slice_dim arguments, plus error cases '
-            '(non-singular axis, dim >= 5); non-trivial = some key varies in some input or along the merge axis, or an error')
+    RULE = ('2..7 inputs that are the restrictions of random total functions on the OUTPUT grid (dense reference), all five '
+            'merge dims, 3-5 D inputs incl. (X,Y,Z,1,V), 4-D T=1 inputs along time and ~10% trailing-singleton shapes, any slice '
+            'axis or none (also along time / vector), canonical and widened classes per input, keys missing from some inputs, '
+            'inputs with another slice direction, explicit slice_dim argument, explicit affine argument equal to / translated '
+            'from / turned against the inputs\' affines, plus refusals (non-singular axis, dim >= 5; any exception class); the '
+            'result header is judged against the case, per-slice metadata against slice directions; non-trivial = some key in a '
+            'varying class in an input or the result')
 
     @staticmethod
     def gen_cases(rng, tier):
@@ -819,22 +1055,19 @@ class MergePart:
     def oracle(case, obs):
         if 'crash' in obs:
             return 'harness: %s' % obs.get('msg')
-        m = oracle_merge(case, obs)
-        if m is None and obs.get('input_untouched') is False:
-            return 'from_sequence modified an input'
-        return m
+        return oracle_merge(case, obs)
 
     @staticmethod
     def signature(case, obs, msg):
+        if n13_tagged(msg):
+            return N13_SIG
         return finding_sig_merge(case, obs) or \
             'merge/%s/dim%d/%s' % (shape_family(case['exts'][0]['shape']), case['dim'], sig_of_exc(obs))
 
     @staticmethod
     def nontrivial(case, obs):
-        if 'err' in obs:
-            return True
         return any(c != 'GConst' for E in case['exts'] for _, c, _ in E['entries']) or \
-            any(c != 'GConst' for _, c, _ in obs['ext']['entries'])
+            ('ext' in obs and any(c != 'GConst' for _, c, _ in obs['ext']['entries']))
 
     @staticmethod
     def shrink(case):
@@ -956,8 +1189,9 @@ def oracle_split(case, obs):
             return 'piece %d: extension shape %r differs from image shape %r' % (i, p['ext']['shape'], p['shape'])
         if p['ext']['sdim'] != E['sdim'] or p['slice'] != img['slice']:
             return 'piece %d: slice dimension changed' % i
-        if not p.get('valid', True):
-            return 'piece %d: extension fails check_valid' % i
+        lp = layout_problems(p['ext'], 'piece %d' % i)
+        if lp:
+            return lp[0]
         # geometry: linear part unchanged, voxel 0 of the piece is where voxel i of the parent was
         for r in range(4):
             for c in range(3):
@@ -975,6 +1209,9 @@ def oracle_split(case, obs):
             if pos >= len(p['data']) or p['data'][pos] != flat:
                 return 'piece %d: voxel %d is not parent voxel %r' % (i, pos, pidx)
             for k in (keys if img['slice'] == E['sdim'] else []):      # lookups are compared on matching images only
+                for side, v in (('piece', p['lookups'][k][pos]), ('parent', obs['parent']['lookups'][k][flat])):
+                    if isinstance(v, dict) and '__exc__' in v:
+                        return 'piece %d key %r: get_meta on the %s raised %s at an in-range voxel' % (i, k, side, v['__exc__'])
                 if p['lookups'][k][pos] != obs['parent']['lookups'][k][flat]:
                     return 'piece %d key %r: lookup at piece voxel %d = %r, parent at %r = %r' % (
                         i, k, pos, p['lookups'][k][pos], pidx, obs['parent']['lookups'][k][flat])
